@@ -9,7 +9,7 @@ import z3
 from .sx_base import GenError, PathEnd, RaiseSig
 from .theory import Int
 from .values import (F, FAll, FAnd, FEx, FImp, FOr, FT, Sym, VChoice, VExc, VFunc, VList, VModule, VObj,
-                     VOpt, VSet, VUnique)
+                     VOpaque, VOpt, VSet, VUnique)
 
 CONST_TYPES = (int, str, bool, type(None), float, enum.Enum)
 
@@ -443,10 +443,14 @@ class ExprMixin:
             return self.unit.ref_attr(self, base, attr)
         if isinstance(base, VExc):
             return self.fresh("str", "exc_" + attr)
+        if isinstance(base, VOpaque):
+            return VFunc(base.name + "." + attr, "unmodelled")
         if isinstance(base, VFunc) and base.kind == "callee":
             key = base.name + "." + attr
             if key in self.unit.contract.calls:
                 return VFunc(key, "callee", self.unit.contract.calls[key])
+            if self.unit.contract.unknown_calls == "effect":
+                return VFunc(key, "unmodelled")
             raise GenError("attribute %s of callable %s has no spec" % (attr, base.name))
         if is_const(base) or isinstance(base, (list, dict, VList, Sym, VSet)):
             return VFunc(attr, "method", base)
